@@ -285,16 +285,19 @@ def newChal (s : State) (u : User) (wa : Bool) : State :=
 
 def delChal (s : State) (u : User) : State := { s with chal := upd s.chal u none }
 
+/-- `getRegistrationArray()` is non-empty: U2F registrations plus webauthn registrations with a P-256 key -/
+def hasReg (s : State) (u : User) : Bool := (s.prof u).hasU2F || (s.prof u).hasWA
+
 def hU2fBegin (s : State) (c : Option Cookie) : Res :=
   match auth s c with
   | none => (s, 401, [])
-  | some ck => if (s.prof ck.sub).hasU2F = true then (newChal s ck.sub false, 200, []) else (s, 400, [])
+  | some ck => if hasReg s ck.sub = true then (newChal s ck.sub false, 200, []) else (s, 400, [])
 
 def hU2fFinish (v : Variant) (s : State) (c : Option Cookie) (a : Option Assertion) : Res :=
   match auth s c with
   | none => (s, 401, [])
   | some ck =>
-    if (s.prof ck.sub).hasU2F = false then (s, 400, [])
+    if hasReg s ck.sub = false then (s, 400, [])
     else
       match s.chal ck.sub with
       | none => (s, 400, [])
@@ -306,7 +309,9 @@ def hU2fFinish (v : Variant) (s : State) (c : Option Cookie) (a : Option Asserti
           | some a =>
             if a.owner = ck.sub ∧ a.chal = ch.id ∧ s.now < ch.issuedAt + u2fLibLife then
               match a.kind with
-              | .u2f => (delChal s ck.sub, 200, [bump ck authTypeU2F])
+              | .u2f =>
+                if (s.prof ck.sub).hasU2F = true then (delChal s ck.sub, 200, [bump ck authTypeU2F])
+                else (s, 500, [])
               | .wa =>
                 if (s.prof ck.sub).hasWA = true then
                   (if v.chalOnce = true then delChal s ck.sub else s, 200, [bump ck authTypeU2F])
